@@ -194,6 +194,9 @@ spawnphase(struct stageinfo *phase, int *fd, char *input, char *output, bool las
 	ret = spawn(&phase->pid, &phase->cmd, &actions);
 	if (ret)
 		goto err2;
+	/* the stage has its own copy of the read end it reads from */
+	if (*fd != -1)
+		close(*fd);
 	if (!last) {
 		*fd = pipefd[0];
 		close(pipefd[1]);
